@@ -17,6 +17,7 @@ import (
 	"sync"
 	"sync/atomic"
 	"testing"
+	"time"
 
 	segjson "github.com/segmentio/encoding/json"
 	"github.com/segmentio/encoding/proto"
@@ -342,6 +343,26 @@ func (w *yieldingWriter) Write(p []byte) (int, error) {
 
 var ops = []string{"json.Encoder", "json.Marshal", "json.Unmarshal", "json.Tokenizer", "json.TokenizerReuse", "json.PooledMaps", "proto.Marshal", "proto.Size", "proto.TypeOf", "thrift.Marshal.compact", "thrift.Marshal.binary"}
 
+// hangLimit bounds the wait for the calls of one round. They are library calls on small values that take micro-
+// to milliseconds each (a whole shard of thousands of rounds takes a minute or two on a loaded machine); a round
+// that has not returned after this long is not slow, a call in it does not return ("each call returns ..." fails
+// with no result at all). Reported as a violation with the script in flight; the process then exits, since the
+// goroutine that is stuck cannot be stopped and nothing run after it would be trustworthy.
+var hangLimit = 180 * time.Second
+
+func waitCalls(wg *sync.WaitGroup) *evid.Failure {
+	ch := make(chan struct{})
+	go func() { wg.Wait(); close(ch) }()
+	tm := time.NewTimer(hangLimit)
+	defer tm.Stop()
+	select {
+	case <-ch:
+		return nil
+	case <-tm.C:
+		return &evid.Failure{Oracle: "each concurrent call returns (exactly what it returns running alone)", Observed: fmt.Sprintf("the calls of one round had not all returned after %v", hangLimit), Expected: "every call returns within milliseconds", Class: "hang"}
+	}
+}
+
 type outcome struct {
 	step Step
 	res  string
@@ -350,7 +371,7 @@ type outcome struct {
 
 // runScript executes the script concurrently and returns per-call results plus
 // the number of fresh types whose first use was contended.
-func runScript(c Case, types []reflect.Type) ([]outcome, int) {
+func runScript(c Case, types []reflect.Type) ([]outcome, int, *evid.Failure) {
 	var all []outcome
 	var mu sync.Mutex
 	contended := 0
@@ -396,8 +417,11 @@ func runScript(c Case, types []reflect.Type) ([]outcome, int) {
 			}()
 		}
 		start.Done()
-		done.Wait()
+		hung := waitCalls(&done)
 		stopGC.Store(true)
+		if hung != nil {
+			return nil, contended, hung
+		}
 		gcDone.Wait()
 		for i := range types {
 			if c.Types[i].Fresh && !seenBefore[i] && firstUse[i].Load() >= 2 {
@@ -408,7 +432,7 @@ func runScript(c Case, types []reflect.Type) ([]outcome, int) {
 			}
 		}
 	}
-	return all, contended
+	return all, contended, nil
 }
 
 func checkCase(c Case) (*evid.Failure, int) {
@@ -420,7 +444,10 @@ func checkCase(c Case) (*evid.Failure, int) {
 		}
 		types[i] = materialise(ts, n)
 	}
-	got, contended := runScript(c, types)
+	got, contended, hung := runScript(c, types)
+	if hung != nil {
+		return hung, contended
+	}
 	// the same calls executed alone afterwards
 	for _, o := range got {
 		want := call(o.step.Op, types[o.step.Type], o.step.Val)
